@@ -120,6 +120,18 @@ def classify(msg):
     return "+".join(codes) or "noerrcode", first
 
 
+def name_class(name):
+    """what kind of name does not resolve: one of bindgen's helper types, a --c-naming composite name, a
+    template parameter, or something else"""
+    if re.match(r"(__Bindgen|__IncompleteArrayField|__BindgenUnionField|__BindgenFloat16|__BindgenLongDouble)", name):
+        return "helper"
+    if re.search(r"(^|_)(struct|union|enum)_", name):
+        return "tagged-name"
+    if re.fullmatch(r"[A-Z]\w{0,2}", name):
+        return "type-parameter"
+    return "other"
+
+
 def signature(msg, code):
     """what the first diagnostic with this error code is about, without declaration names"""
     m = re.search(r"error\[%s\]: ([^\n]*)\n((?:(?!\nerror).)*)" % code, msg, re.S)
@@ -129,6 +141,9 @@ def signature(msg, code):
     if code == "E0080":
         a = re.search(r'\["(Size|Alignment|Offset) of', body)
         return {"Size": "size-assert", "Alignment": "align-assert", "Offset": "offset-assert"}.get(a.group(1), "-") if a else "-"
+    if code in ("E0412", "E0425", "E0433", "E0432"):
+        n = re.search(r"`([^`]*)`", head)
+        return name_class(n.group(1) if n else "")
     if code == "E0277":
         t = re.search(r"the trait `([A-Za-z]+)(?:<[^`]*>)?` is not implemented for `([^`]*)`", head + body) or \
             re.search(r"`([^`]*)` doesn't implement `([A-Za-z]+)", head + body)
@@ -216,7 +231,7 @@ def closure_trace(res, w, outputs):
     if not C.tlc_ok(r):
         raise C.ToolError("Trace_Closure did not complete: " + r["out"][-1200:])
     for v in (C.tlc_prints(r["out"], "VIOL") or [[]])[0]:
-        res.violation("unresolved-name:%s" % v["case"].split("@")[0], v)
+        res.violation("unresolved-name:%s:%s" % (v["case"].split("@")[0], name_class(str(v.get("name", "")))), v)
     res.add(states=r["distinct"], transitions=r["generated"], modules_closure_checked=n)
 
 
